@@ -991,6 +991,10 @@ def c06_programs(backend):
         add(f"Select(EventDataset('ds'), lambda e: (e.{n}('b1').Count(), e.{n}('b1').Select(lambda x: x.pt())))", tags=("same-bank-twice",))
         add(f"Select(EventDataset('ds'), lambda e: (e.{n}('b1').Count(), e.{n}('b2').Count()))", tags=("two-banks",))
         add(f"Select(EventDataset('ds'), lambda e: e.{n}('b1').Select(lambda x: e.{n}('b2').Where(lambda y: y.pt() > x.pt()).Count()))", tags=("two-banks-nested",))
+        # the collection bound to a lambda parameter: used twice, the first use inside a block that has closed before the second
+        add(f"Select(Select(EventDataset('ds'), lambda e: e.{n}('b1')), lambda c: {{'sel': (c.Where(lambda x: x.pt() > 1.5).Count() if 1 > 0 else 0), 'all': c.Count()}})", tags=("bound-twice",))
+        add(f"Select(Select(EventDataset('ds'), lambda e: e.{n}('b1')), lambda c: (c.Select(lambda x: x.pt()), c.Count(), c.Where(lambda x: x.pt() > 1.5).Select(lambda x: x.pt())))", tags=("bound-twice",))
+        add(f"Select(Select(EventDataset('ds'), lambda e: e.{n}('b1')), lambda c: (c.Count() if c.Count() > 1 else -1, c.Select(lambda x: x.pt())))", tags=("bound-twice",))
         add(f"Select(EventDataset('ds'), lambda e: e.{n}('b1').Count() > 0 and e.{n}('b2').Count() > 0)", tags=("lazy",))
         add(f"Select(EventDataset('ds'), lambda e: e.{n}())", tags=("must_raise",))
         add(f"Select(EventDataset('ds'), lambda e: e.{n}('a', 'b').Count())", tags=("must_raise",))
@@ -1237,6 +1241,18 @@ def c11_programs(backend):
         ("Select(EventDataset('ds'), lambda e: e.PRIM('A').Where(lambda j: j.vals().Count() > 0).Select(lambda j: twice(j.vals().First()) + j.pt()))", [twice]),
         ("Select(EventDataset('ds'), lambda e: (twice(e.PRIM('A').Count()), e.PRIM('A').Select(lambda j: twice(j.pt()))))", [twice]),
     ]
+    if backend == "atlas":
+        # the documented built-in method on receivers of every shape
+        qs += [
+            ("Select(Where(EventDataset('ds'), lambda e: e.PRIM('A').Count() > 0), lambda e: e.PRIM('A').First().getAttributeFloat('emf'))", []),
+            ("Select(EventDataset('ds'), lambda e: e.PRIM('A').Where(lambda j: j.pt() > 1.5).Select(lambda j: j.getAttributeFloat('emf')))", []),
+            ("Select(EventDataset('ds'), lambda e: e.PRIM('A').Select(lambda j: j.getAttributeFloat('a') - j.getAttributeFloat('b')))", []),
+            ("Select(Select(Where(EventDataset('ds'), lambda e: e.PRIM('A').Count() > 0), lambda e: e.PRIM('A').First()), lambda j: j.getAttributeFloat('emf') + j.pt())", []),
+            # actual arguments that are strings with C++ comment / statement syntax inside (the supplied code is pasted with them)
+            ("Select(EventDataset('ds'), lambda e: e.PRIM('A').Select(lambda j: j.getAttributeFloat('root://eos//calib.root')))", []),
+            ("Select(EventDataset('ds'), lambda e: e.PRIM('A').Select(lambda j: j.getAttributeFloat('Width // raw') + j.getAttributeFloat('a; b')))", []),
+            ("Select(EventDataset('ds'), lambda e: e.PRIM('A').Select(lambda j: j.getAttributeFloat('x /* y */ z')))", []),
+        ]
     for q, fns in qs:
         prog(q, fns, tags=("cppfn",))
     bad = [
